@@ -155,10 +155,13 @@ func lexAll(src []rune) (toks []rtok, failed bool, p interface{}) {
 	return toks, true, nil
 }
 
-// T_Tokenizer (thorough tier): every text of up to N characters over the K3 alphabet is cut
+// H_Tokenizer: every text of up to N characters over the K3 alphabet is cut
 // exactly as the reference greedy segmenter cuts it.
-func T_Tokenizer() {
+func H_Tokenizer() {
 	N := 2
+	if zv.Tier() == 1 {
+		N = 3
+	}
 	n := 1 + zv.Choose(N)
 	src := make([]rune, n)
 	for k := range src {
@@ -188,4 +191,55 @@ func T_Tokenizer() {
 		}
 	}
 	zv.Assert(same, "keywords are cut out greedily, the rest are identifiers (kind, extent and name of every token)")
+}
+
+// ---- K3b: unspaced identifiers over letters, digits and + - * / % . _
+
+var k3bTail = []rune{'a', '中', '1', '+', '-', '*', '/', '%', '.', '_'}
+
+func pureInK3bTail(c rune) bool {
+	for _, a := range k3bTail {
+		if c == a {
+			return true
+		}
+	}
+	return false
+}
+
+// H_IdentifierRuns: a letter followed by up to N characters out of letters,
+// digits and + - * / % . _ (no blank, no punctuation, no keyword glyph, no
+// comment opener, not ending in an operator character) is ONE identifier with
+// exactly that name - the same name its backtick spelling yields.
+func H_IdentifierRuns() {
+	N := 3
+	if zv.Tier() == 1 {
+		N = 4
+	}
+	n := 1 + zv.Choose(N)
+	src := make([]rune, 1+n)
+	if zv.Choose(2) == 0 {
+		src[0] = 'a'
+	} else {
+		src[0] = '中'
+	}
+	for k := 1; k <= n; k++ {
+		src[k] = zv.Rune("c")
+		zv.Assume(pureInK3bTail(src[k]))
+		if k > 1 {
+			// no comment opener: // and /*
+			zv.Assume(!(src[k-1] == '/' && (src[k] == '/' || src[k] == '*')))
+		}
+	}
+	last := src[n]
+	zv.Assume(last != '+' && last != '-' && last != '*' && last != '/') // what an operator character at the very end means is not specified
+	got, failed, p := lexAll(src)
+	zv.Assert(p == nil, "identifier run: no panic")
+	zv.Assert(!failed, "a run of identifier characters is accepted")
+	zv.Assert(len(got) == 1 && got[0].typ == zh.TypeIdentifier && got[0].lit == string(src) && got[0].start == 0 && got[0].end == len(src),
+		"+ - * / % . _ inside an unspaced run are part of the identifier (one identifier token with the whole text as its name)")
+	quoted := append(append([]rune{'`'}, src...), '`')
+	gotQ, failedQ, pQ := lexAll(quoted)
+	zv.Assert(pQ == nil && !failedQ && len(gotQ) == 1 && gotQ[0].typ == zh.TypeIdentifier && gotQ[0].lit == string(src),
+		"the backtick spelling of the same text is the same single identifier")
+	zv.Reach("one-identifier")
 }
